@@ -15,7 +15,7 @@ from pv.checks import common
 from pv.runner import case_rng
 
 import prov.model as pm
-from prov.identifier import Namespace, QualifiedName
+from prov.identifier import Identifier, Namespace, QualifiedName
 
 ID = "C18"
 LEVEL = "exploration"
@@ -154,6 +154,7 @@ def explicit_lookups(ctx, c, r, where, problems, n_present=3, n_absent=2):
                     spellings.append(("printed_absent", "%s:%s" % (p, uri[len(u):])))
                     break
         spellings.append(("uri", uri))
+        spellings.append(("uri_as_Identifier_object", Identifier(uri)))
         for name, x in spellings:
             ctx.count("lookup.%s.%s" % (name, "present" if want else "absent"))
             try:
@@ -234,6 +235,25 @@ def judge(ctx, idx, case):
             hub.counts["IDX.evaluations"] += 1
             problems.extend("%s: %s" % (name, b) for b in bad)
             explicit_lookups(ctx, c, r, "after %s" % name, problems)
+    # a typed listing is the answer at the time of the call: records added afterwards (here: while iterating) are not part of it
+    for c in all_containers(A):
+        for cls in (pm.ProvElement, pm.ProvEntity, (pm.ProvEntity, pm.ProvAgent), None):
+            want = [x for x in c.get_records() if cls is None or isinstance(x, cls)]
+            try:
+                it = c.get_records(cls) if cls is not None else c.get_records()
+                c.entity(Namespace("late", "http://late.example/")["added-after-the-call-%d" % r.randint(0, 99)])
+                got, n = [], 0
+                for x in it:
+                    got.append(x)
+                    n += 1
+                    if n > len(want) + 50:
+                        break
+                ctx.count("typed_listing_consumed_after_an_addition")
+                if [id(x) for x in got] != [id(x) for x in want]:
+                    problems.append("get_records(%s) consumed after a later addition yields %d records, the container held %d such records at the call"
+                                    % (getattr(cls, "__name__", cls), len(got), len(want)))
+            except pm.ProvException:
+                pass
     reports = [(what, wit) for mon, what, wit in hub.drain() if mon == "IDX"]
     if problems:
         ctx.violation(idx, "look-up disagrees with the record list: %s" % problems[0][:300], case, {"problems": problems[:8]})
